@@ -64,6 +64,7 @@ SPEC int pt_ok(void) { if (G_pt[0] != 0) return 0; for (int i = 1; i < N; i++) i
 #define PRE_X  PRE(wf_x, shape_wf(&G_X) && x == &G_X.s) PRE(point, pt_ok())
 #define PRE_XY PRE(wf_x, shape_wf(&G_X) && x == &G_X.s) PRE(wf_y, shape_wf(&G_Y) && y == &G_Y.s) PRE(point, pt_ok())
 
+#ifndef BDS_NO_CONTRACTS     /* (contracts/C14/bds_reject.h puts different contracts on the same functions) */
 /* shortest_path_closure_assign(): tightens only with sound sums; emptiness is reported only when true */
 void FN_closure(const BDS_T *x) PRE_X ASSIGNS(FRAME_XY)
   POST(keeps_every_point, !G_satX0 || sat(x));
@@ -87,5 +88,6 @@ _Bool FN_is_disjoint_from(const BDS_T *x, const BDS_T *y) PRE_XY ASSIGNS(FRAME_X
 /* operator==: reported equality means equal point sets */
 _Bool FN_equal(const BDS_T *x, const BDS_T *y) PRE_XY ASSIGNS(FRAME_XY)
   POST(definite, !RET || (G_satX0 == G_satY0));
+#endif
 #endif
 #endif
